@@ -10,7 +10,7 @@ From Coq Require Import List ZArith NArith Bool Arith Lia QArith Qcanon Qcabs.
 From LMBase Require Import Res ListX IEEE.
 From Coq Require Import Reals Qreals Qabs.
 From Flocq Require Import Core BinarySingleNaN.
-From LMPwm Require Import GenComplement PwmModel PwmCheck PwmProofs PwmExact PwmF32 PwmCheckSound PwmF32Rescale.
+From LMPwm Require Import GenComplement PwmModel PwmCheck PwmProofs PwmExact PwmExact2 PwmF32 PwmCheckSound PwmF32Rescale PwmF32Freq.
 Import ListNotations.
 Local Open Scope nat_scope.
 
@@ -82,6 +82,25 @@ Proof.
     rewrite (nth_indep _ c ((fun i => if i =? K - 1 then n_zero O else c) 0)) by (rewrite map_length, seq_length; exact Hk).
     rewrite (map_nth (fun i => if i =? K - 1 then n_zero O else c) (seq 0 K) 0 k).
     rewrite seq_nth by exact Hk. reflexivity.
+Qed.
+
+(* binary32 (Flocq): the REAL sum of the computed cells of a frequency row is within
+   E n = 1/(1-u)^n - 1 + n*eta of one (n = K cells, u = 2^-24, eta = 2^-150; at most
+   2^-19 for the 21 protein columns), for nonnegative count+pseudocount cells with a finite
+   positive total.  (Addition has no underflow error: FLT_plus_error_N_ex; the n*eta
+   term comes from the n divisions.) *)
+Theorem C09_freq_rows_sum_to_one_f32 :
+  forall (pseudo : list F32.t) (row : list N),
+    let dst := map2 (fun x p => F32.add (F32.of_Z (Z.of_N x)) p) row pseudo in
+    let s := fsum F32ops dst in
+    Forall (fun x => is_finite x = true /\ (0 <= B2R x)%R) dst -> is_finite s = true -> (0 < B2R s)%R ->
+    Forall (fun x => is_finite x = true) (to_freq_row F32ops pseudo row) ->
+    (Rabs (Rsum (map B2R (to_freq_row F32ops pseudo row)) - 1) <= E (length dst))%R /\
+    (length dst <= 21 -> (E (length dst) <= bpow radix2 (-19))%R).
+Proof.
+  intros pseudo row dst s H1 H2 H3 H4. split.
+  - exact (to_freq_row_sum_f32 pseudo row H1 H2 H3 H4).
+  - intros Hn. exact (E_small _ Hn).
 Qed.
 
 (* ---- weights ---- *)
@@ -361,6 +380,50 @@ Theorem C09_background_from_counts_spec :
        else Ok (map (fun c => n_div O (n_of_N O c) (n_of_N O total)) counts)) /\
     bg_from_sequences O K seqs unknown = bg_from_counts O (bg_base_counts K seqs unknown).
 Proof. intros. split; reflexivity. Qed.
+
+(* from_counts in exact arithmetic: rejected iff the total is 0; otherwise entry k is
+   counts k / total, every entry is in [0,1], the entries sum to exactly one, and
+   Background::new accepts the result (a background built from counts is valid) *)
+Theorem C09_background_from_counts_valid :
+  forall counts : list N,
+    let total := fold_left N.add counts 0%N in
+    if (total =? 0)%N then bg_from_counts Qcops counts = Err 1
+    else exists l, bg_from_counts Qcops counts = Ok l /\
+                   l = map (fun c => (ofN c / ofN total)%Qc) counts /\
+                   Forall (fun f => (Q2Qc 0 <= f)%Qc /\ (f <= Q2Qc 1)%Qc) l /\ Qcsum l = Q2Qc 1 /\
+                   bg_new Qcops l = Ok l.
+Proof. exact bg_from_counts_valid. Qed.
+
+(* from_sequence(s), any carrier: the counts handed to from_counts are the numbers of
+   occurrences of every symbol over all sequences, the wildcard only with [unknown] —
+   the specification the extracted checker check_bg_counts compares with *)
+Theorem C09_background_from_sequences_counts :
+  forall (T : Type) (O : NumOps T) (K : nat) (seqs : list (list nat)) (unknown : bool),
+    bg_from_sequences O K seqs unknown = bg_from_counts O (bg_counts_spec K seqs unknown) /\
+    forall k, k < K ->
+      nth k (bg_counts_spec K seqs unknown) 0%N
+      = if unknown || negb (k =? K - 1)
+        then N.of_nat (length (filter (fun x => x =? k) (concat seqs))) else 0%N.
+Proof.
+  intros T O K seqs unknown. split.
+  - unfold bg_from_sequences. rewrite bg_base_counts_spec. reflexivity.
+  - intros k Hk. unfold bg_counts_spec.
+    rewrite (nth_indep _ 0%N ((fun k => if unknown || negb (k =? K - 1)
+       then N.of_nat (length (filter (fun x => x =? k) (concat seqs))) else 0%N) 0))
+      by (rewrite map_length, seq_length; exact Hk).
+    rewrite (map_nth (fun k => if unknown || negb (k =? K - 1)
+       then N.of_nat (length (filter (fun x => x =? k) (concat seqs))) else 0%N) (seq 0 K) 0 k).
+    rewrite seq_nth by exact Hk. reflexivity.
+Qed.
+
+(* exact arithmetic: weight * background gives the frequency back (non-zero background) *)
+Theorem C09_weight_times_background :
+  forall x bg : Qc, bg <> Q2Qc 0 -> (weight_cell Qcops x bg * bg)%Qc = x.
+Proof.
+  intros x bg Hb. rewrite weight_cell_Qc.
+  destruct (Qc_eq_bool bg (Q2Qc 0)) eqn:E; [apply Qc_eqb_true in E; contradiction|].
+  unfold Qcdiv. rewrite <- Qcmult_assoc, (Qcmult_comm (/ bg)), Qcmult_inv_r by exact Hb. ring.
+Qed.
 
 (* ---- binary32 facts replayed in the kernel / non-vacuity ---- *)
 
